@@ -1095,3 +1095,24 @@ m('D4-by-class-lookup-asks-about-the-global-mode', 'C13', 'D4', 'registry.get/mo
 m('H5-prefix-compares-node-data-by-identity', 'C07', 'H5', 'PyTreeSpec::IsPrefix/node_data/is', 'src/treespec/richcomparison.cpp',
   """                if (a->kind != b->kind || (a->node_data && a->node_data.not_equal(b->node_data)))""",
   """                if (a->kind != b->kind || (a->node_data && !a->node_data.is(b->node_data)))""")
+m('M8-with-path-node-count-off-by-one', 'C08', 'M8', 'PyTreeSpec::FlattenIntoWithPathImpl/counts', 'src/treespec/flatten.cpp',
+  """    node.num_nodes = py::ssize_t_cast(m_traversal.size()) - start_num_nodes + 1;
+    node.num_leaves = leaves.size() - start_num_leaves;
+    m_traversal.emplace_back(std::move(node));
+    return found_custom;
+}
+
+bool PyTreeSpec::FlattenIntoWithPath(""",
+  """    node.num_nodes = py::ssize_t_cast(m_traversal.size()) - start_num_nodes;
+    node.num_leaves = leaves.size() - start_num_leaves;
+    m_traversal.emplace_back(std::move(node));
+    return found_custom;
+}
+
+bool PyTreeSpec::FlattenIntoWithPath(""")
+m('M8-constructed-root-counts-itself-as-leaf', 'C08', 'M8', 'PyTreeSpec::MakeFromCollectionImpl/counts', 'src/treespec/constructor.cpp',
+  """    ssize_t num_leaves = ((node.kind == PyTreeKind::Leaf) ? 1 : 0);""",
+  """    ssize_t num_leaves = ((node.kind != PyTreeKind::Leaf) ? 1 : 0);""")
+m('M8-compose-multiplies-by-inner-leaves', 'C08', 'M8', 'PyTreeSpec::Compose/counts', 'src/treespec/treespec.cpp',
+  """                (node.num_nodes - node.num_leaves) + (node.num_leaves * num_inner_nodes);""",
+  """                (node.num_nodes - node.num_leaves) + (node.num_leaves * num_inner_leaves);""")
